@@ -14,7 +14,7 @@ package gov
 //@ loop 1 continue [propagate]  callsok("handler")
 //@ loop 1 continue [each-once]  ncalls("handler") <= 1
 //@ loop 1 continue [matching-logs-handled] log.Address.Bytes() == h.govContract.Bytes() && mapHas(h.handlers, log.Topics[0]) ==> ncalls("handler") == 1
-//@ ensures [all-logs-visited] result == nil ==> !returnedInLoop(1)
+//@ ensures [all-logs-visited] result == nil ==> loopCompleted(1)
 
 // ---- handlers: the vote is built from the event's own fields and routed through ExecuteMsg --------
 // verif:func (*HookAdapter).HandleVoted
